@@ -177,3 +177,844 @@ Proof.
     cbn [parse_expr].
     rewrite (parse_args_flat (e1 :: es') H Hwf ltac:(discriminate) f rest); [reflexivity | lia].
 Qed.
+
+Lemma parse_flat : forall e, wfe e = true ->
+  parse_expr (S (length (flat e))) (flat e) = Some (e, []).
+Proof.
+  intros e Hw. rewrite <- (app_nil_r (flat e)) at 2.
+  apply parse_flat_gen; [exact Hw | lia | exact I].
+Qed.
+
+Lemma flat_inj : forall a b, wfe a = true -> wfe b = true -> flat a = flat b -> a = b.
+Proof.
+  intros a b Ha Hb E. pose proof (parse_flat a Ha) as Pa. pose proof (parse_flat b Hb) as Pb.
+  rewrite E in Pa. rewrite Pa in Pb. congruence.
+Qed.
+
+(* ------------------------------------------------------------------------------------------------ *)
+(* generic list lemmas *)
+
+Lemma map_filter_comm : forall {A B} (f : A -> B) (P : B -> bool) l,
+  map f (filter (fun x => P (f x)) l) = filter P (map f l).
+Proof. induction l as [|x r IH]; cbn; [reflexivity|]. destruct (P (f x)); cbn; rewrite IH; reflexivity. Qed.
+
+Lemma filter_ext_in' : forall {A} (f g : A -> bool) l, (forall x, In x l -> f x = g x) -> filter f l = filter g l.
+Proof.
+  induction l as [|x r IH]; intros H; cbn; [reflexivity|].
+  rewrite (H x (or_introl eq_refl)). rewrite IH; [reflexivity|]. intros y Hy. apply H. right. exact Hy.
+Qed.
+
+Lemma map_dedup_on : forall {A K} (key : A -> K) (eqb : K -> K -> bool) l,
+  map key (dedup_on key eqb l) = dedup eqb (map key l).
+Proof.
+  induction l as [|x r IH]; cbn; [reflexivity|]. f_equal.
+  rewrite <- IH. apply (map_filter_comm key (fun k => negb (eqb (key x) k))).
+Qed.
+
+Lemma mem_s_map : forall {A} (key : A -> list token) s l,
+  mem_s s (map key l) = existsb (fun x => tokens_eqb s (key x)) l.
+Proof. intros. unfold mem_s. induction l; cbn; [reflexivity|]. rewrite IHl. reflexivity. Qed.
+
+Lemma map_compat_step_on : forall {A} (key : A -> list token) l p,
+  map key (compat_step_on key l p) = compat_step (map key l) p.
+Proof.
+  intros. unfold compat_step_on, compat_step.
+  destruct (mem_s [TName (fst p)] (map key l) && mem_s [TName (snd p)] (map key l)); [|reflexivity].
+  apply (map_filter_comm key (fun s => negb (tokens_eqb s [TName (fst p)]))).
+Qed.
+
+Lemma map_fold_compat : forall {A} (key : A -> list token) items l,
+  map key (fold_left (compat_step_on key) items l) = fold_left compat_step items (map key l).
+Proof.
+  induction items as [|p r IH]; intros l; cbn; [reflexivity|].
+  rewrite IH. rewrite map_compat_step_on. reflexivity.
+Qed.
+
+Lemma map_form_set_on : forall {A} c (key : A -> list token) l,
+  map key (form_set_on c key l) = form_set c (map key l).
+Proof.
+  intros. unfold form_set_on, form_set. destruct (in_param c).
+  - rewrite map_fold_compat, map_dedup_on. reflexivity.
+  - apply map_dedup_on.
+Qed.
+
+(* re-indexing: the same selection made on a list and on its image *)
+Lemma dedup_on_map : forall {A B K} (f : A -> B) (key : B -> K) eqb l,
+  dedup_on key eqb (map f l) = map f (dedup_on (fun x => key (f x)) eqb l).
+Proof.
+  induction l as [|x r IH]; cbn; [reflexivity|]. f_equal. rewrite IH.
+  symmetry. apply (map_filter_comm f (fun y => negb (eqb (key (f x)) (key y)))).
+Qed.
+
+Lemma compat_step_on_map : forall {A B} (f : A -> B) (key : B -> list token) l p,
+  compat_step_on key (map f l) p = map f (compat_step_on (fun x => key (f x)) l p).
+Proof.
+  intros. unfold compat_step_on. rewrite map_map.
+  destruct (mem_s [TName (fst p)] (map (fun x => key (f x)) l) && mem_s [TName (snd p)] (map (fun x => key (f x)) l));
+    [|reflexivity].
+  symmetry. apply (map_filter_comm f (fun y => negb (tokens_eqb (key y) [TName (fst p)]))).
+Qed.
+
+Lemma fold_compat_on_map : forall {A B} (f : A -> B) (key : B -> list token) items l,
+  fold_left (compat_step_on key) items (map f l) =
+  map f (fold_left (compat_step_on (fun x => key (f x))) items l).
+Proof.
+  induction items as [|p r IH]; intros l; cbn; [reflexivity|].
+  rewrite compat_step_on_map. apply IH.
+Qed.
+
+Lemma form_set_on_map : forall {A B} c (f : A -> B) (key : B -> list token) l,
+  form_set_on c key (map f l) = map f (form_set_on c (fun x => key (f x)) l).
+Proof.
+  intros. unfold form_set_on. rewrite dedup_on_map. destruct (in_param c); [|reflexivity].
+  apply fold_compat_on_map.
+Qed.
+
+Lemma dedup_on_incl : forall {A K} (key : A -> K) eqb l x, In x (dedup_on key eqb l) -> In x l.
+Proof.
+  induction l as [|y r IH]; cbn; intros x H; [exact H|].
+  destruct H as [H|H]; [left; exact H|]. right. apply filter_In in H. apply IH. apply H.
+Qed.
+
+Lemma compat_step_on_incl : forall {A} (key : A -> list token) l p x, In x (compat_step_on key l p) -> In x l.
+Proof.
+  intros A key l p x. unfold compat_step_on.
+  destruct (mem_s _ _ && mem_s _ _); [|exact (fun H => H)]. intros H. apply filter_In in H. apply H.
+Qed.
+
+Lemma fold_compat_on_incl : forall {A} (key : A -> list token) items l x,
+  In x (fold_left (compat_step_on key) items l) -> In x l.
+Proof.
+  induction items as [|p r IH]; cbn; intros l x H; [exact H|].
+  apply IH in H. eapply compat_step_on_incl. exact H.
+Qed.
+
+Lemma form_set_on_incl : forall {A} c (key : A -> list token) l x, In x (form_set_on c key l) -> In x l.
+Proof.
+  intros A c key l x. unfold form_set_on. destruct (in_param c); intros H.
+  - apply fold_compat_on_incl in H. eapply dedup_on_incl. exact H.
+  - eapply dedup_on_incl. exact H.
+Qed.
+
+Lemma dedup_on_ext : forall {A K} (k1 k2 : A -> K) eqb l,
+  (forall x, In x l -> k1 x = k2 x) -> dedup_on k1 eqb l = dedup_on k2 eqb l.
+Proof.
+  induction l as [|x r IH]; intros H; cbn; [reflexivity|]. f_equal.
+  rewrite <- IH by (intros y Hy; apply H; right; exact Hy).
+  apply filter_ext_in'. intros y Hy. apply dedup_on_incl in Hy.
+  rewrite (H x (or_introl eq_refl)), (H y (or_intror Hy)). reflexivity.
+Qed.
+
+Lemma compat_step_on_ext : forall {A} (k1 k2 : A -> list token) l p,
+  (forall x, In x l -> k1 x = k2 x) -> compat_step_on k1 l p = compat_step_on k2 l p.
+Proof.
+  intros A k1 k2 l p H. unfold compat_step_on.
+  rewrite (map_ext_in k1 k2 l H).
+  destruct (mem_s _ _ && mem_s _ _); [|reflexivity].
+  apply filter_ext_in'. intros y Hy. rewrite (H y Hy). reflexivity.
+Qed.
+
+Lemma fold_compat_on_ext : forall {A} (k1 k2 : A -> list token) items l,
+  (forall x, In x l -> k1 x = k2 x) ->
+  fold_left (compat_step_on k1) items l = fold_left (compat_step_on k2) items l.
+Proof.
+  induction items as [|p r IH]; intros l H; cbn; [reflexivity|].
+  rewrite (compat_step_on_ext k1 k2 l p H). apply IH.
+  intros x Hx. apply H. eapply compat_step_on_incl. exact Hx.
+Qed.
+
+Lemma form_set_on_ext : forall {A} c (k1 k2 : A -> list token) l,
+  (forall x, In x l -> k1 x = k2 x) -> form_set_on c k1 l = form_set_on c k2 l.
+Proof.
+  intros A c k1 k2 l H. unfold form_set_on.
+  rewrite (dedup_on_ext k1 k2 tokens_eqb l H).
+  destruct (in_param c); [|reflexivity].
+  apply fold_compat_on_ext. intros x Hx. apply H. eapply dedup_on_incl. exact Hx.
+Qed.
+
+(* ------------------------------------------------------------------------------------------------ *)
+(* _BuildUnion seen on expressions *)
+
+Definition is_litsub (e : expr) : bool := match e with ESub b _ => (b =? id_Literal)%N | _ => false end.
+Definition lit_args (e : expr) : list expr :=
+  match e with ESub b a => if (b =? id_Literal)%N then a else [] | _ => [] end.
+Definition is_enone (e : expr) : bool := match e with ENone => true | _ => false end.
+
+Definition coalesce_e (es : list expr) : list expr :=
+  let nl := filter (fun e => negb (is_litsub e)) es in
+  match filter is_litsub es with
+  | [] => nl
+  | lits => nl ++ [ESub id_Literal (flat_map lit_args lits)]
+  end.
+Definition union1_e (l : list expr) : expr :=
+  match coalesce_e l with [x] => x | l' => ESub id_Union l' end.
+Definition union_e (l : list expr) : expr :=
+  match coalesce_e l with
+  | [x] => x
+  | l' => if existsb is_enone l'
+          then ESub id_Optional [union1_e (filter (fun e => negb (is_enone e)) l')]
+          else ESub id_Union l'
+  end.
+
+Lemma sep_app : forall l1 l2, l1 <> [] -> l2 <> [] -> sep (l1 ++ l2) = sep l1 ++ TComma :: sep l2.
+Proof.
+  induction l1 as [|x r IH]; intros l2 H1 H2; [congruence|].
+  destruct r as [|y r'].
+  - cbn [app]. destruct l2 as [|z l2']; [congruence|]. rewrite sep_cons2, sep_single. reflexivity.
+  - cbn [app]. rewrite !sep_cons2. rewrite <- app_assoc. cbn [app]. f_equal. f_equal.
+    change (y :: r' ++ l2) with ((y :: r') ++ l2). apply IH; [discriminate | exact H2].
+Qed.
+
+Lemma match_literal_flat : forall e,
+  match_literal (flat e) = if is_litsub e then Some (sep (map flat (lit_args e))) else None.
+Proof.
+  destruct e; cbn; try reflexivity.
+  destruct (base =? id_Literal)%N; [|reflexivity].
+  rewrite rev_app_distr. cbn. rewrite rev_involutive. reflexivity.
+Qed.
+
+Lemma split_lits_flat : forall es,
+  split_lits (map flat es) =
+  (map flat (filter (fun e => negb (is_litsub e)) es),
+   map (fun e => sep (map flat (lit_args e))) (filter is_litsub es)).
+Proof.
+  induction es as [|e r IH]; [reflexivity|].
+  cbn [map split_lits filter]. rewrite IH. rewrite match_literal_flat.
+  destruct (is_litsub e); reflexivity.
+Qed.
+
+Lemma wfe_lit_args : forall e, wfe e = true -> is_litsub e = true -> lit_args e <> [].
+Proof.
+  destruct e; cbn; try discriminate. intros Hw Hl. rewrite Hl. destruct args; [discriminate|discriminate].
+Qed.
+
+Lemma sep_sep : forall lits,
+  (forall e, In e lits -> lit_args e <> []) -> lits <> [] ->
+  sep (map (fun e => sep (map flat (lit_args e))) lits) = sep (map flat (flat_map lit_args lits))
+  /\ flat_map lit_args lits <> [].
+Proof.
+  induction lits as [|e r IH]; intros H Hne; [congruence|].
+  assert (He: lit_args e <> []) by (apply H; left; reflexivity).
+  destruct r as [|e' r'].
+  - cbn. rewrite app_nil_r. split; [reflexivity|exact He].
+  - destruct IH as [IH1 IH2]; [intros x Hx; apply H; right; exact Hx | discriminate |].
+    change (map (fun e0 => sep (map flat (lit_args e0))) (e :: e' :: r'))
+      with (sep (map flat (lit_args e)) :: map (fun e0 => sep (map flat (lit_args e0))) (e' :: r')).
+    cbn [flat_map]. rewrite map_app. split.
+    + rewrite sep_app.
+      * change (map (fun e0 => sep (map flat (lit_args e0))) (e' :: r'))
+          with (sep (map flat (lit_args e')) :: map (fun e0 => sep (map flat (lit_args e0))) r').
+        rewrite sep_cons2.
+        change (sep (map flat (lit_args e')) :: map (fun e0 => sep (map flat (lit_args e0))) r')
+          with (map (fun e0 => sep (map flat (lit_args e0))) (e' :: r')).
+        rewrite IH1. reflexivity.
+      * destruct (lit_args e); [congruence|discriminate].
+      * intro E. apply map_eq_nil in E. exact (IH2 E).
+    + destruct (lit_args e); [congruence|discriminate].
+Qed.
+
+Lemma coalesce_flat : forall es, forallb wfe es = true ->
+  coalesce (map flat es) = map flat (coalesce_e es).
+Proof.
+  intros es Hw. unfold coalesce, coalesce_e. rewrite split_lits_flat.
+  destruct (filter is_litsub es) as [|l0 lr] eqn:El; [reflexivity|].
+  cbn [map]. rewrite map_app. f_equal. cbn [map]. f_equal.
+  unfold sub. cbn [flat app].
+  assert (Hl: forall e, In e (l0 :: lr) -> lit_args e <> []).
+  { intros e He. rewrite <- El in He. apply filter_In in He. destruct He as [Hi Hs].
+    apply wfe_lit_args; [|exact Hs]. rewrite forallb_forall in Hw. apply Hw. exact Hi. }
+  destruct (sep_sep (l0 :: lr) Hl ltac:(discriminate)) as [S1 _].
+  change (sep (map flat (lit_args l0)) :: map (fun e => sep (map flat (lit_args e))) lr)
+    with (map (fun e => sep (map flat (lit_args e))) (l0 :: lr)).
+  rewrite S1. reflexivity.
+Qed.
+
+Lemma is_none_flat : forall e, is_none_s (flat e) = is_enone e.
+Proof.
+  intros e. unfold is_none_s.
+  destruct e; cbn; try reflexivity; try (apply tokens_eqb_false; discriminate).
+Qed.
+
+Lemma sub_flat : forall b l, sub [TName b] (map flat l) = flat (ESub b l).
+Proof. reflexivity. Qed.
+
+Lemma wfe_coalesce_e : forall es, forallb wfe es = true -> forallb wfe (coalesce_e es) = true.
+Proof.
+  intros es Hw. unfold coalesce_e.
+  assert (Hnl: forallb wfe (filter (fun e => negb (is_litsub e)) es) = true).
+  { rewrite forallb_forall in *. intros x Hx. apply filter_In in Hx. apply Hw. apply Hx. }
+  destruct (filter is_litsub es) as [|l0 lr] eqn:El; [exact Hnl|].
+  rewrite forallb_app. rewrite Hnl. cbn [forallb andb].
+  assert (Hl: forall e, In e (l0 :: lr) -> lit_args e <> [] /\ forallb wfe (lit_args e) = true).
+  { intros e He. rewrite <- El in He. apply filter_In in He. destruct He as [Hi Hs].
+    rewrite forallb_forall in Hw. specialize (Hw e Hi). split; [apply wfe_lit_args; assumption|].
+    destruct e; cbn in Hs; try discriminate. cbn. rewrite Hs. cbn in Hw. destruct args; [discriminate|exact Hw]. }
+  destruct (sep_sep (l0 :: lr) (fun e He => proj1 (Hl e He)) ltac:(discriminate)) as [_ Hne].
+  cbn [wfe]. destruct (flat_map lit_args (l0 :: lr)) as [|fa fr] eqn:Ef; [congruence|]. rewrite <- Ef.
+  rewrite andb_true_r. rewrite forallb_forall. intros x Hx. apply in_flat_map in Hx.
+  destruct Hx as (e9 & He9 & Hx). destruct (Hl e9 He9) as [_ Hw']. rewrite forallb_forall in Hw'. apply Hw'. exact Hx.
+Qed.
+
+Lemma build_union1_flat : forall l, forallb wfe l = true ->
+  build_union1 (map flat l) = flat (union1_e l).
+Proof.
+  intros l Hw. unfold build_union1, union1_e. rewrite coalesce_flat by exact Hw.
+  destruct (coalesce_e l) as [|a [|b r]]; reflexivity.
+Qed.
+
+Lemma build_union_flat : forall l, forallb wfe l = true ->
+  build_union (map flat l) = flat (union_e l).
+Proof.
+  intros l Hw. unfold build_union, union_e. rewrite coalesce_flat by exact Hw.
+  pose proof (wfe_coalesce_e l Hw) as Hc.
+  generalize dependent (coalesce_e l). intros l' Hc.
+  assert (He: existsb is_none_s (map flat l') = existsb is_enone l').
+  { clear. induction l' as [|x r IH]; cbn; [reflexivity|]. rewrite is_none_flat, IH. reflexivity. }
+  assert (Hf: filter (fun s => negb (is_none_s s)) (map flat l') = map flat (filter (fun e => negb (is_enone e)) l')).
+  { rewrite <- (map_filter_comm flat (fun s => negb (is_none_s s))).
+    f_equal. apply filter_ext_in'. intros x _. rewrite is_none_flat. reflexivity. }
+  destruct l' as [|a [|b r]]; [reflexivity | reflexivity |].
+  cbn [map]. change (flat a :: flat b :: map flat r) with (map flat (a :: b :: r)).
+  rewrite He, Hf. destruct (existsb is_enone (a :: b :: r)); [|reflexivity].
+  rewrite build_union1_flat; [reflexivity|].
+  rewrite forallb_forall in *. intros x Hx. apply filter_In in Hx. apply Hc. apply Hx.
+Qed.
+
+(* ------------------------------------------------------------------------------------------------ *)
+(* the selection made by _FormSetTypeList: never empty, no two members with the same printed form *)
+
+Lemma NoDup_map_filter : forall {A B} (f : A -> B) (P : A -> bool) l,
+  NoDup (map f l) -> NoDup (map f (filter P l)).
+Proof.
+  induction l as [|x r IH]; cbn; intros H; [constructor|].
+  inversion H as [|? ? Hn Hr]; subst. destruct (P x); cbn; [|apply IH; exact Hr].
+  constructor; [|apply IH; exact Hr].
+  intro Hin. apply Hn. apply in_map_iff in Hin. destruct Hin as (y & Hy & Hin).
+  apply filter_In in Hin. apply in_map_iff. exists y. split; [exact Hy | apply Hin].
+Qed.
+
+Lemma NoDup_dedup_on : forall {A} (key : A -> list token) l,
+  NoDup (map key (dedup_on key tokens_eqb l)).
+Proof.
+  induction l as [|x r IH]; cbn; [constructor|].
+  constructor.
+  - intro Hin. apply in_map_iff in Hin. destruct Hin as (y & Hy & Hin).
+    apply filter_In in Hin. destruct Hin as [_ Hneg]. rewrite <- Hy in Hneg.
+    rewrite tokens_eqb_refl in Hneg. discriminate.
+  - apply NoDup_map_filter. exact IH.
+Qed.
+
+Lemma NoDup_fold_compat_on : forall {A} (key : A -> list token) items l,
+  NoDup (map key l) -> NoDup (map key (fold_left (compat_step_on key) items l)).
+Proof.
+  induction items as [|p r IH]; cbn; intros l H; [exact H|].
+  apply IH. unfold compat_step_on. destruct (mem_s _ _ && mem_s _ _); [|exact H].
+  apply NoDup_map_filter. exact H.
+Qed.
+
+Lemma NoDup_form_set_on : forall {A} c (key : A -> list token) l, NoDup (map key (form_set_on c key l)).
+Proof.
+  intros. unfold form_set_on. destruct (in_param c).
+  - apply NoDup_fold_compat_on. apply NoDup_dedup_on.
+  - apply NoDup_dedup_on.
+Qed.
+
+Lemma compat_step_on_nonempty : forall {A} (key : A -> list token) l p,
+  fst p <> snd p -> l <> [] -> compat_step_on key l p <> [].
+Proof.
+  intros A key l p Hp Hl. unfold compat_step_on.
+  destruct (mem_s [TName (fst p)] (map key l)) eqn:E1; cbn [andb]; [|exact Hl].
+  destruct (mem_s [TName (snd p)] (map key l)) eqn:E2; [|exact Hl].
+  rewrite mem_s_map in E2. apply existsb_exists in E2. destruct E2 as (x & Hx & Ex).
+  apply tokens_eqb_true in Ex.
+  intro Hf. assert (Hin: In x (filter (fun x0 => negb (tokens_eqb (key x0) [TName (fst p)])) l)).
+  { apply filter_In. split; [exact Hx|]. rewrite <- Ex.
+    assert (tokens_eqb [TName (snd p)] [TName (fst p)] = false) as ->; [|reflexivity].
+    apply tokens_eqb_false. intro E. injection E as E. congruence. }
+  rewrite Hf in Hin. exact Hin.
+Qed.
+
+Lemma compat_items_distinct : Forall (fun p : N * N => fst p <> snd p) compat_items.
+Proof. repeat constructor; cbn; discriminate. Qed.
+
+Lemma form_set_on_nonempty : forall {A} c (key : A -> list token) l, l <> [] -> form_set_on c key l <> [].
+Proof.
+  intros A c key l Hl. unfold form_set_on.
+  assert (Hd: dedup_on key tokens_eqb l <> []) by (destruct l; [congruence|cbn; discriminate]).
+  destruct (in_param c); [|exact Hd].
+  generalize dependent (dedup_on key tokens_eqb l). clear Hl.
+  pose proof compat_items_distinct as Hc. induction Hc as [|p r Hp Hr IH]; cbn; intros l0 H0; [exact H0|].
+  apply IH. apply compat_step_on_nonempty; assumption.
+Qed.
+
+Lemma coalesce_e_nonempty : forall l, l <> [] -> coalesce_e l <> [].
+Proof.
+  intros l Hl. unfold coalesce_e.
+  destruct (filter is_litsub l) as [|a r] eqn:El.
+  - destruct l as [|x l']; [congruence|]. cbn in *. destruct (is_litsub x); [discriminate|cbn; discriminate].
+  - intro E. apply app_eq_nil in E. destruct E as [_ E]. discriminate.
+Qed.
+
+Lemma NoDup_filter : forall {A} (P : A -> bool) l, NoDup l -> NoDup (filter P l).
+Proof.
+  intros A P l H. rewrite <- (map_id (filter P l)). apply NoDup_map_filter. rewrite map_id. exact H.
+Qed.
+
+Lemma NoDup_snoc : forall {A} (l : list A) x, NoDup l -> ~ In x l -> NoDup (l ++ [x]).
+Proof.
+  induction l as [|y r IH]; cbn; intros x H Hn; [constructor; [exact (fun f => f)|constructor]|].
+  inversion H as [|? ? Hy Hr]; subst. constructor.
+  - intro Hin. apply in_app_or in Hin. destruct Hin as [Hin|[Hin|[]]]; [exact (Hy Hin)|]. apply Hn. left. symmetry. exact Hin.
+  - apply IH; [exact Hr|]. intro Hin. apply Hn. right. exact Hin.
+Qed.
+
+Lemma NoDup_coalesce_e : forall l, NoDup l -> NoDup (coalesce_e l).
+Proof.
+  intros l H. unfold coalesce_e.
+  destruct (filter is_litsub l) as [|a r] eqn:El; [apply NoDup_filter; exact H|].
+  apply NoDup_snoc; [apply NoDup_filter; exact H|].
+  intro Hin. apply filter_In in Hin. destruct Hin as [_ Hl]. cbn in Hl. discriminate.
+Qed.
+
+Lemma filter_enone_nonempty : forall l, NoDup l -> 2 <= length l ->
+  filter (fun e => negb (is_enone e)) l <> [].
+Proof.
+  intros l Hn Hl. destruct l as [|a [|b r]]; cbn in Hl; try lia.
+  cbn. destruct a; cbn; try discriminate. destruct b; cbn; try discriminate.
+  inversion Hn as [|? ? Hna _]; subst. exfalso. apply Hna. left. reflexivity.
+Qed.
+
+Lemma wfe_union1_e : forall l, forallb wfe l = true -> l <> [] -> wfe (union1_e l) = true.
+Proof.
+  intros l Hw Hl. unfold union1_e. pose proof (wfe_coalesce_e l Hw) as Hc.
+  pose proof (coalesce_e_nonempty l Hl) as Hne.
+  destruct (coalesce_e l) as [|a [|b r]]; [congruence| cbn in Hc; rewrite andb_true_r in Hc; exact Hc | exact Hc].
+Qed.
+
+Lemma wfe_union_e : forall l, forallb wfe l = true -> l <> [] -> NoDup l -> wfe (union_e l) = true.
+Proof.
+  intros l Hw Hl Hn. unfold union_e. pose proof (wfe_coalesce_e l Hw) as Hc.
+  pose proof (coalesce_e_nonempty l Hl) as Hne. pose proof (NoDup_coalesce_e l Hn) as Hnc.
+  destruct (coalesce_e l) as [|a [|b r]] eqn:E; [congruence| cbn in Hc; rewrite andb_true_r in Hc; exact Hc |].
+  destruct (existsb is_enone (a :: b :: r)); [|exact Hc].
+  cbn [wfe forallb]. rewrite andb_true_r. apply wfe_union1_e.
+  - rewrite forallb_forall in *. intros x Hx. apply filter_In in Hx. apply Hc. apply Hx.
+  - apply filter_enone_nonempty; [exact Hnc | cbn; lia].
+Qed.
+
+(* ------------------------------------------------------------------------------------------------ *)
+(* the printer, seen as producing an expression *)
+
+Definition name_expr (n : name) : expr :=
+  if (name_id n =? id_NoneType)%N then ENone else EName (name_id n).
+Definition lit_expr (v : lit) : expr :=
+  match v with LInt z => EInt z | LBool _ b => EBool b | LStr i => EStr i | LEnum i => EName i end.
+
+Fixpoint to_expr (c : ctx) (t : ty) : expr :=
+  match t with
+  | Named n => name_expr n
+  | AnyT => EName id_Any
+  | NothingT => EName id_nothing
+  | TParam i => EName i
+  | Lit v => ESub id_Literal [lit_expr v]
+  | Generic b ps =>
+      let args := map (to_expr c) ps in
+      if prints_tuple b then ESub (name_id b) (args ++ [EEllipsis])
+      else if name_eqb b (NT id_Callable) then ESub (name_id b) (EEllipsis :: tl args)
+      else ESub (name_id b) args
+  | TupleT b ps =>
+      let args := map (to_expr c) ps in
+      match ps with
+      | [] => ESub (name_id b) [ETuple0]
+      | _ => if name_eqb b (NT id_Callable) then ESub (name_id b) (EEllipsis :: tl args)
+             else ESub (name_id b) args
+      end
+  | CallableT b ps =>
+      let args := map (to_expr c) ps in
+      ESub (name_id b) [EList (removelast args); last args ENone]
+  | Union ts => union_e (form_set_on c flat (map (to_expr c) ts))
+  | Annot t a => ESub id_Annotated (to_expr c t :: map EStr a)
+  end.
+
+Lemma print_lit_flat : forall v, [print_lit v] = flat (lit_expr v).
+Proof. destruct v; reflexivity. Qed.
+
+Lemma print_name_flat : forall n, print_name n = flat (name_expr n).
+Proof. intros n. unfold print_name, name_expr. destruct (name_id n =? id_NoneType)%N; reflexivity. Qed.
+
+Lemma print_name_base : forall n, (name_id n =? id_NoneType)%N = false -> print_name n = [TName (name_id n)].
+Proof. intros n H. unfold print_name. rewrite H. reflexivity. Qed.
+
+Lemma prints_tuple_id : forall b, prints_tuple b = true -> name_id b = id_tuple.
+Proof.
+  intros b H. unfold prints_tuple in H. apply tokens_eqb_true in H. unfold print_name in H.
+  destruct (name_id b =? id_NoneType)%N; [discriminate|]. injection H as H. exact H.
+Qed.
+
+Lemma name_eqb_eq : forall a b, name_eqb a b = true -> a = b.
+Proof. destruct a, b; cbn; intros H; try discriminate; apply N.eqb_eq in H; congruence. Qed.
+Lemma name_eqb_refl : forall a, name_eqb a a = true.
+Proof. destruct a; cbn; apply N.eqb_refl. Qed.
+
+Lemma removelast_map : forall {A B} (f : A -> B) l, removelast (map f l) = map f (removelast l).
+Proof. induction l as [|x [|y r] IH]; cbn in *; [reflexivity|reflexivity|]. f_equal. exact IH. Qed.
+Lemma last_map : forall {A B} (f : A -> B) l d d', l <> [] -> last (map f l) d = f (last l d').
+Proof. induction l as [|x [|y r] IH]; intros d d' H; [congruence|reflexivity|]. cbn [map]. cbn [map] in IH. apply (IH d d'). discriminate. Qed.
+
+Lemma map_tl' : forall {A B} (f : A -> B) l, map f (tl l) = tl (map f l).
+Proof. destruct l; reflexivity. Qed.
+
+Lemma forallb_Forall_in : forall {A} (f : A -> bool) (P : A -> Prop) l,
+  Forall (fun x => f x = true -> P x) l -> forallb f l = true -> forall x, In x l -> P x.
+Proof.
+  intros A f P l HF Hb x Hx. rewrite Forall_forall in HF. rewrite forallb_forall in Hb. auto.
+Qed.
+
+Lemma print_to_expr : forall env c t, wf env t = true ->
+  print_ty c t = flat (to_expr c t) /\ wfe (to_expr c t) = true.
+Proof.
+  intros env c. induction t using ty_ind'; intros Hwf.
+  - cbn. split; [apply print_name_flat|]. unfold name_expr. destruct (_ =? _)%N; reflexivity.
+  - split; reflexivity.
+  - split; reflexivity.
+  - split; reflexivity.
+  - cbn. split; [unfold sub; cbn; rewrite <- print_lit_flat; reflexivity|]. destruct v; reflexivity.
+  - (* Generic *)
+    cbn [wf] in Hwf. apply andb_true_iff in Hwf. destruct Hwf as [Hwf Hshape].
+    apply andb_true_iff in Hwf. destruct Hwf as [Hwf Hps].
+    apply andb_true_iff in Hwf. destruct Hwf as [Hwf Hnn].
+    pose proof (forallb_Forall_in _ _ _ H Hps) as IH.
+    assert (Hmap: map (print_ty c) ps = map flat (map (to_expr c) ps)).
+    { rewrite map_map. apply map_ext_in. intros x Hx. apply IH. exact Hx. }
+    assert (Hw: forallb wfe (map (to_expr c) ps) = true).
+    { rewrite forallb_forall. intros e He. apply in_map_iff in He. destruct He as (x & <- & Hx). apply IH. exact Hx. }
+    apply negb_true_iff in Hnn.
+    cbn [print_ty to_expr]. fold (prints_tuple b). rewrite (print_name_base b Hnn), Hmap.
+    destruct (prints_tuple b) eqn:Et.
+    + split.
+      * change [[TEllipsis]] with (map flat [EEllipsis]). rewrite <- map_app. reflexivity.
+      * cbn [wfe]. rewrite forallb_app, Hw. cbn. destruct (map (to_expr c) ps); reflexivity.
+    + destruct (name_eqb b (NT id_Callable)) eqn:Ec.
+      * split.
+        -- rewrite <- map_tl'. change ([TEllipsis] :: map flat (tl (map (to_expr c) ps))) with (map flat (EEllipsis :: tl (map (to_expr c) ps))). reflexivity.
+        -- cbn [wfe forallb]. cbn. destruct (map (to_expr c) ps) as [|e0 es0]; [reflexivity|]. cbn in Hw. apply andb_true_iff in Hw. apply Hw.
+      * split; [reflexivity|]. cbn [wfe]. destruct ps as [|p0 ps0]; [discriminate|]. exact Hw.
+  - (* TupleT *)
+    cbn [wf] in Hwf. apply andb_true_iff in Hwf. destruct Hwf as [Hwf Hps].
+    apply andb_true_iff in Hwf. destruct Hwf as [Hwf Hwn].
+    pose proof (forallb_Forall_in _ _ _ H Hps) as IH.
+    assert (Hmap: map (print_ty c) ps = map flat (map (to_expr c) ps)).
+    { rewrite map_map. apply map_ext_in. intros x Hx. apply IH. exact Hx. }
+    assert (Hw: forallb wfe (map (to_expr c) ps) = true).
+    { rewrite forallb_forall. intros e He. apply in_map_iff in He. destruct He as (x & <- & Hx). apply IH. exact Hx. }
+    pose proof (prints_tuple_id b Hwf) as Hid.
+    assert (Hpn: print_name b = [TName (name_id b)]) by (apply print_name_base; rewrite Hid; reflexivity).
+    assert (Hc: name_eqb b (NT id_Callable) = false).
+    { destruct (name_eqb b (NT id_Callable)) eqn:E; [|reflexivity]. apply name_eqb_eq in E. subst b. discriminate. }
+    cbn [print_ty to_expr]. rewrite Hpn, Hc, Hmap.
+    destruct ps as [|p0 ps0]; [split; reflexivity|]. split; [reflexivity|]. exact Hw.
+  - (* CallableT *)
+    cbn [wf] in Hwf. apply andb_true_iff in Hwf. destruct Hwf as [Hwf Hne].
+    apply andb_true_iff in Hwf. destruct Hwf as [Hwf Hps].
+    pose proof (forallb_Forall_in _ _ _ H Hps) as IH.
+    assert (Hmap: map (print_ty c) ps = map flat (map (to_expr c) ps)).
+    { rewrite map_map. apply map_ext_in. intros x Hx. apply IH. exact Hx. }
+    assert (Hw: forallb wfe (map (to_expr c) ps) = true).
+    { rewrite forallb_forall. intros e He. apply in_map_iff in He. destruct He as (x & <- & Hx). apply IH. exact Hx. }
+    apply name_eqb_eq in Hwf. subst b.
+    cbn [print_ty to_expr]. rewrite Hmap.
+    assert (Hnz: map (to_expr c) ps <> []) by (destruct ps; [discriminate|cbn; discriminate]).
+    split.
+    + unfold sub. cbn [print_name name_id]. cbn [flat map]. rewrite removelast_map.
+      rewrite (last_map flat _ [] ENone Hnz). reflexivity.
+    + cbn [wfe forallb]. rewrite andb_true_r. apply andb_true_iff. split.
+      * rewrite forallb_forall in *. intros e He. apply Hw.
+        clear -He. induction (map (to_expr c) ps) as [|a [|b r] IH']; cbn in *; [contradiction|contradiction|].
+        destruct He as [He|He]; [left; exact He|right; apply IH'; exact He].
+      * rewrite forallb_forall in Hw. apply Hw.
+        clear -Hnz. induction (map (to_expr c) ps) as [|a [|b r] IH']; [congruence|left; reflexivity|].
+        right. apply IH'. discriminate.
+  - (* Union *)
+    cbn [wf] in Hwf. apply andb_true_iff in Hwf. destruct Hwf as [Hwf Hne].
+    apply andb_true_iff in Hwf. destruct Hwf as [Hts Hflat].
+    pose proof (forallb_Forall_in _ _ _ H Hts) as IH.
+    assert (Hmap: map (print_ty c) ts = map flat (map (to_expr c) ts)).
+    { rewrite map_map. apply map_ext_in. intros x Hx. apply IH. exact Hx. }
+    assert (Hw: forallb wfe (map (to_expr c) ts) = true).
+    { rewrite forallb_forall. intros e He. apply in_map_iff in He. destruct He as (x & <- & Hx). apply IH. exact Hx. }
+    cbn [print_ty to_expr]. rewrite Hmap. rewrite <- map_form_set_on.
+    assert (Hw': forallb wfe (form_set_on c flat (map (to_expr c) ts)) = true).
+    { rewrite forallb_forall in *. intros e He. apply Hw. eapply form_set_on_incl. exact He. }
+    split; [apply build_union_flat; exact Hw'|].
+    apply wfe_union_e; [exact Hw' | |].
+    + apply form_set_on_nonempty. destruct ts; [discriminate|cbn; discriminate].
+    + eapply NoDup_map_inv. apply NoDup_form_set_on.
+  - (* Annot *)
+    cbn [wf] in Hwf. apply andb_true_iff in Hwf. destruct Hwf as [Hwt Ha].
+    destruct (IHt Hwt) as [IH1 IH2].
+    cbn [print_ty to_expr]. rewrite IH1. split.
+    + unfold sub. cbn [flat map app]. do 3 f_equal. rewrite map_map. reflexivity.
+    + cbn [wfe forallb]. rewrite IH2. cbn. clear. induction a; cbn; [reflexivity|exact IHa].
+Qed.
+
+(* ------------------------------------------------------------------------------------------------ *)
+(* facts about identifiers that follow from the dialect predicate *)
+
+Lemma is_special_false : forall i, is_special i = false ->
+  (i =? id_Any)%N = false /\ (i =? id_Optional)%N = false /\ (i =? id_Union)%N = false /\
+  (i =? id_Literal)%N = false /\ (i =? id_nothing)%N = false /\ (i =? id_Annotated)%N = false /\
+  (i =? id_Type)%N = false.
+Proof.
+  intros i H. unfold is_special in H. repeat (apply orb_false_iff in H; destruct H as [H ?]). tauto.
+Qed.
+
+Lemma ord_id_facts : forall env i, ord_id env i = true ->
+  is_typing i = false /\ is_special i = false /\ is_tvar env i = false.
+Proof.
+  intros env i H. unfold ord_id in H. apply andb_true_iff in H. destruct H as [H H3].
+  apply andb_true_iff in H. destruct H as [H1 H2]. rewrite negb_true_iff in *. tauto.
+Qed.
+
+Lemma conv_name_ord : forall env i, ord_id env i = true -> conv_name env i = Some (Named (NP i)).
+Proof.
+  intros env i H. destruct (ord_id_facts env i H) as (Ht & Hs & Hv).
+  destruct (is_special_false i Hs) as (E1 & E2 & E3 & E4 & E5 & E6 & E7).
+  unfold conv_name. rewrite E5, E1, E2, E3, E7, Hv, Ht. reflexivity.
+Qed.
+
+Lemma conv_name_typing : forall env i, is_typing i = true -> is_special i = false -> is_tvar env i = false ->
+  conv_name env i = Some (Named (NT i)).
+Proof.
+  intros env i Ht Hs Hv. destruct (is_special_false i Hs) as (E1 & E2 & E3 & E4 & E5 & E6 & E7).
+  unfold conv_name. rewrite E5, E1, E2, E3, E7, Hv, Ht. reflexivity.
+Qed.
+
+Lemma wf_name_conv : forall env n, wf_name env n = true -> (name_id n =? id_NoneType)%N = false ->
+  conv_name env (name_id n) = Some (Named (norm_name n)).
+Proof.
+  intros env n H Hn. destruct n as [i|i|i]; cbn in *.
+  - apply conv_name_ord. exact H.
+  - apply andb_true_iff in H. destruct H as [H Hv]. apply andb_true_iff in H. destruct H as [Ht Hs].
+    rewrite negb_true_iff in *. apply conv_name_typing; assumption.
+  - apply conv_name_ord. exact H.
+Qed.
+
+Lemma wf_name_none : forall env n, wf_name env n = true -> (name_id n =? id_NoneType)%N = true ->
+  norm_name n = NP id_NoneType.
+Proof.
+  intros env n H Hn. apply N.eqb_eq in Hn. destruct n as [i|i|i]; cbn in *; subst; try reflexivity.
+  cbn in H. discriminate.
+Qed.
+
+(* the shape of what the printer produces for a type *)
+Definition type_like (e : expr) : Prop :=
+  match e with EName _ | ENone | ESub _ _ => True | _ => False end.
+
+Lemma union1_e_like : forall l, Forall type_like l -> l <> [] -> type_like (union1_e l).
+Proof.
+  intros l H Hl. unfold union1_e. pose proof (coalesce_e_nonempty l Hl) as Hne.
+  destruct (coalesce_e l) as [|a [|b r]] eqn:E; [congruence| |exact I].
+  unfold coalesce_e in E. destruct (filter is_litsub l) as [|q qs].
+  - assert (In a (filter (fun e => negb (is_litsub e)) l)) by (rewrite E; left; reflexivity).
+    apply filter_In in H0. rewrite Forall_forall in H. apply H. apply H0.
+  - destruct (filter (fun e => negb (is_litsub e)) l) as [|z [|z2 zs]]; cbn in E; try discriminate.
+    injection E as <-. exact I.
+Qed.
+
+Lemma union_e_like : forall l, Forall type_like l -> l <> [] -> type_like (union_e l).
+Proof.
+  intros l H Hl. unfold union_e. pose proof (coalesce_e_nonempty l Hl) as Hne.
+  destruct (coalesce_e l) as [|a [|b r]] eqn:E; [congruence| |destruct (existsb _ _); exact I].
+  unfold coalesce_e in E. destruct (filter is_litsub l) as [|q qs].
+  - assert (In a (filter (fun e => negb (is_litsub e)) l)) by (rewrite E; left; reflexivity).
+    apply filter_In in H0. rewrite Forall_forall in H. apply H. apply H0.
+  - destruct (filter (fun e => negb (is_litsub e)) l) as [|z [|z2 zs]]; cbn in E; try discriminate.
+    injection E as <-. exact I.
+Qed.
+
+Lemma to_expr_like : forall env c t, wf env t = true -> type_like (to_expr c t).
+Proof.
+  intros env c. induction t using ty_ind'; intros Hwf; cbn [to_expr]; try exact I.
+  - unfold name_expr. destruct (_ =? _)%N; exact I.
+  - destruct (prints_tuple b); [exact I|]. destruct (name_eqb _ _); exact I.
+  - destruct ps; [exact I|]. destruct (name_eqb _ _); exact I.
+  - cbn [wf] in Hwf. apply andb_true_iff in Hwf. destruct Hwf as [Hwf Hne].
+    apply andb_true_iff in Hwf. destruct Hwf as [Hts Hflat].
+    apply union_e_like.
+    + rewrite Forall_forall. intros e He. apply form_set_on_incl in He. apply in_map_iff in He.
+      destruct He as (x & <- & Hx). rewrite Forall_forall in H. apply H; [exact Hx|].
+      rewrite forallb_forall in Hts. apply Hts. exact Hx.
+    + apply form_set_on_nonempty. destruct ts; [discriminate|cbn; discriminate].
+Qed.
+
+Lemma mapM_map : forall {A B C} (f : B -> option C) (g : A -> B) (h : A -> C) l,
+  (forall x, In x l -> f (g x) = Some (h x)) -> mapM f (map g l) = Some (map h l).
+Proof.
+  induction l as [|x r IH]; intros H; cbn; [reflexivity|].
+  rewrite (H x (or_introl eq_refl)). cbn in IH. rewrite IH; [reflexivity|].
+  intros y Hy. apply H. right. exact Hy.
+Qed.
+
+Lemma mapM_app : forall {A B} (f : A -> option B) l1 l2 r1 r2,
+  mapM f l1 = Some r1 -> mapM f l2 = Some r2 -> mapM f (l1 ++ l2) = Some (r1 ++ r2).
+Proof.
+  induction l1 as [|x r IH]; intros l2 r1 r2 H1 H2; cbn in *.
+  - injection H1 as <-. exact H2.
+  - destruct (f x); [|discriminate].
+    destruct (mapM f r) eqn:E; [|discriminate]. injection H1 as <-.
+    cbn in IH. rewrite (IH l2 l r2 eq_refl H2). reflexivity.
+Qed.
+
+(* ------------------------------------------------------------------------------------------------ *)
+(* the reader's conversions applied to the printed expression give norm *)
+
+Lemma wf_name_special : forall env b, wf_name env b = true -> is_special (name_id b) = false.
+Proof.
+  intros env b H. destruct b as [i|i|i]; cbn in *.
+  - apply ord_id_facts in H. tauto.
+  - apply andb_true_iff in H. destruct H as [H _]. apply andb_true_iff in H. destruct H as [_ H].
+    apply negb_true_iff in H. exact H.
+  - apply ord_id_facts in H. tauto.
+Qed.
+
+Lemma is_litsub_to_expr : forall env c t, wf env t = true -> is_union t = false ->
+  is_litsub (to_expr c t) = is_lit t.
+Proof.
+  intros env c t Hwf Hu. destruct t; cbn [to_expr is_lit]; try reflexivity.
+  - unfold name_expr. destruct (_ =? _)%N; reflexivity.
+  - cbn [wf] in Hwf. apply andb_true_iff in Hwf. destruct Hwf as [Hwf _].
+    apply andb_true_iff in Hwf. destruct Hwf as [Hwf _]. apply andb_true_iff in Hwf. destruct Hwf as [Hwf _].
+    apply wf_name_special in Hwf. apply is_special_false in Hwf.
+    destruct (prints_tuple b); [|destruct (name_eqb _ _)]; cbn; tauto.
+  - cbn [wf] in Hwf. apply andb_true_iff in Hwf. destruct Hwf as [Hwf _].
+    apply andb_true_iff in Hwf. destruct Hwf as [Hwf _]. apply prints_tuple_id in Hwf.
+    destruct ps; [|destruct (name_eqb _ _)]; cbn; rewrite Hwf; reflexivity.
+  - cbn [wf] in Hwf. apply andb_true_iff in Hwf. destruct Hwf as [Hwf _].
+    apply andb_true_iff in Hwf. destruct Hwf as [Hwf _]. apply name_eqb_eq in Hwf. subst. reflexivity.
+  - discriminate.
+Qed.
+
+Definition fe (c : ctx) (p : ty * ty) : expr := to_expr c (fst p).
+Definition lit_of (t : ty) : expr := match t with Lit v => lit_expr v | _ => ENone end.
+Definition lit_group (ls : list (ty * ty)) : expr := ESub id_Literal (map (fun p => lit_of (fst p)) ls).
+Definition lge (ls : list (ty * ty)) : list expr := match ls with [] => [] | _ => [lit_group ls] end.
+Definition lgt (ls : list (ty * ty)) : list ty := match ls with [] => [] | _ => [join_types (map snd ls)] end.
+
+(* what is known about a member of a union and its canonical form *)
+Definition member_ok (env : penv) (c : ctx) (p : ty * ty) : Prop :=
+  wf env (fst p) = true /\ is_union (fst p) = false /\ conv env (fe c p) = Some (snd p) /\
+  (is_lit (fst p) = true -> exists v, fst p = Lit v /\ snd p = Lit (pv v)).
+
+Lemma conv_lit_arg_expr : forall v, conv_lit_arg (lit_expr v) = Some (Lit (pv v)).
+Proof. destruct v; reflexivity. Qed.
+
+Lemma flat_map_lit_args : forall c l,
+  (forall p, In p l -> lit_args (fe c p) = [lit_of (fst p)]) ->
+  flat_map lit_args (map (fe c) l) = map (fun p => lit_of (fst p)) l.
+Proof.
+  induction l as [|p r IH]; intros Hls; [reflexivity|].
+  cbn [map flat_map]. rewrite (Hls p (or_introl eq_refl)). cbn [app]. f_equal.
+  apply IH. intros x Hx. apply Hls. right. exact Hx.
+Qed.
+
+Lemma coalesce_e_members : forall env c ks,
+  (forall p, In p ks -> member_ok env c p) ->
+  coalesce_e (map (fe c) ks) =
+  map (fe c) (filter (fun p => negb (u_lit p)) ks) ++ lge (filter u_lit ks).
+Proof.
+  intros env c ks H. unfold coalesce_e.
+  assert (E1: filter (fun e => negb (is_litsub e)) (map (fe c) ks) = map (fe c) (filter (fun p => negb (u_lit p)) ks)).
+  { rewrite <- (map_filter_comm (fe c) (fun e => negb (is_litsub e))). f_equal.
+    apply filter_ext_in'. intros p Hp. destruct (H p Hp) as (Hw & Hu & _). unfold fe, u_lit.
+    rewrite (is_litsub_to_expr env c _ Hw Hu). reflexivity. }
+  assert (E2: filter is_litsub (map (fe c) ks) = map (fe c) (filter u_lit ks)).
+  { rewrite <- (map_filter_comm (fe c) is_litsub). f_equal.
+    apply filter_ext_in'. intros p Hp. destruct (H p Hp) as (Hw & Hu & _). unfold fe, u_lit.
+    apply (is_litsub_to_expr env c _ Hw Hu). }
+  rewrite E1, E2.
+  assert (Hls: forall p, In p (filter u_lit ks) -> lit_args (fe c p) = [lit_of (fst p)]).
+  { intros p Hp. apply filter_In in Hp. destruct Hp as [Hp Hl]. destruct (H p Hp) as (_ & _ & _ & Hv).
+    destruct (Hv Hl) as (v & Ev & _). unfold fe. rewrite Ev. reflexivity. }
+  destruct (filter u_lit ks) as [|q qs]; [cbn; rewrite app_nil_r; reflexivity|].
+  cbn [map]. unfold lge, lit_group. f_equal. f_equal. f_equal.
+  change (fe c q :: map (fe c) qs) with (map (fe c) (q :: qs)).
+  apply flat_map_lit_args. exact Hls.
+Qed.
+
+Lemma conv_literal : forall env args,
+  conv env (ESub id_Literal args) =
+  match args, mapM conv_lit_arg args with
+  | _ :: _, Some ls => Some (join_types ls)
+  | _, _ => None
+  end.
+Proof. reflexivity. Qed.
+
+Lemma conv_union_sub : forall env args,
+  conv env (ESub id_Union args) =
+  match args, mapM (conv env) args with
+  | _ :: _, Some ps => Some (mk_union ps)
+  | _, _ => None
+  end.
+Proof. reflexivity. Qed.
+
+Lemma conv_optional_sub : forall env x,
+  conv env (ESub id_Optional [x]) =
+  match conv env x with
+  | Some x' => Some (mk_union [x'; Named (NP id_NoneType)])
+  | None => None
+  end.
+Proof. reflexivity. Qed.
+
+Lemma conv_lit_group : forall env c ls,
+  (forall p, In p ls -> member_ok env c p /\ u_lit p = true) -> ls <> [] ->
+  conv env (lit_group ls) = Some (join_types (map snd ls)).
+Proof.
+  intros env c ls H Hne. unfold lit_group. rewrite conv_literal.
+  assert (E: mapM conv_lit_arg (map (fun p => lit_of (fst p)) ls) = Some (map snd ls)).
+  { apply mapM_map. intros p Hp. destruct (H p Hp) as [(_ & _ & _ & Hv) Hl].
+    destruct (Hv Hl) as (v & Ev & En). rewrite Ev, En. cbn. apply conv_lit_arg_expr. }
+  destruct ls as [|q qs]; [congruence|].
+  cbn [map] in *. rewrite E. reflexivity.
+Qed.
+
+Lemma conv_items : forall env c X ls,
+  (forall p, In p X -> member_ok env c p) ->
+  (forall p, In p ls -> member_ok env c p /\ u_lit p = true) ->
+  mapM (conv env) (map (fe c) X ++ lge ls) = Some (map snd X ++ lgt ls).
+Proof.
+  intros env c X ls HX Hls. apply mapM_app.
+  - apply mapM_map. intros p Hp. apply (HX p Hp).
+  - destruct ls as [|q qs]; [reflexivity|]. unfold lge, lgt. cbn [mapM].
+    rewrite (conv_lit_group env c (q :: qs) Hls ltac:(discriminate)). reflexivity.
+Qed.
+
+Lemma coalesce_e_again : forall env c X ls,
+  (forall p, In p X -> member_ok env c p /\ u_lit p = false) ->
+  coalesce_e (map (fe c) X ++ lge ls) = map (fe c) X ++ lge ls.
+Proof.
+  intros env c X ls HX. unfold coalesce_e.
+  assert (EX1: filter (fun e => negb (is_litsub e)) (map (fe c) X) = map (fe c) X).
+  { induction X as [|p r IH]; [reflexivity|]. cbn [map filter].
+    destruct (HX p (or_introl eq_refl)) as [(Hw & Hu & _) Hl]. unfold fe at 1.
+    rewrite (is_litsub_to_expr env c _ Hw Hu). unfold u_lit in Hl. rewrite Hl. cbn. f_equal.
+    apply IH. intros x Hx. apply HX. right. exact Hx. }
+  assert (EX2: filter is_litsub (map (fe c) X) = []).
+  { induction X as [|p r IH]; [reflexivity|]. cbn [map filter].
+    destruct (HX p (or_introl eq_refl)) as [(Hw & Hu & _) Hl]. unfold fe at 1.
+    rewrite (is_litsub_to_expr env c _ Hw Hu). unfold u_lit in Hl. rewrite Hl.
+    apply IH. intros x Hx. apply HX. right. exact Hx. }
+  rewrite !filter_app, EX1, EX2.
+  destruct ls as [|q qs]; cbn [lge]; [cbn; rewrite !app_nil_r; reflexivity|].
+  cbn [filter lit_group is_litsub]. rewrite N.eqb_refl. cbn [negb app].
+  rewrite app_nil_r. f_equal. unfold lit_group. cbn [flat_map lit_args]. rewrite N.eqb_refl, app_nil_r. reflexivity.
+Qed.
+
+Lemma is_enone_fe : forall env c p, member_ok env c p -> is_enone (fe c p) = u_none c p.
+Proof.
+  intros env c p (Hw & _). unfold u_none, u_key, fe.
+  destruct (print_to_expr env c (fst p) Hw) as [E _]. rewrite E. symmetry. apply is_none_flat.
+Qed.
+
+Lemma match_len2 : forall {A B} (l : list A) (f : A -> B) (g : list A -> B),
+  2 <= length l -> match l with [x] => f x | l' => g l' end = g l.
+Proof. intros A B l f g H. destruct l as [|a [|b r]]; cbn in H; try lia; reflexivity. Qed.
